@@ -61,4 +61,42 @@ theorem merge_into_plain (cap : Nat → Int) (l rest : List Iv) (a b : Iv)
     Within cap (l ++ mergeIv a b :: rest) :=
   merge_keeps_within cap l rest a b h hb (by simp [mergeOk, ha])
 
+/-- **The clause of the code implies the rule.** What the repaired code evaluates (`clause`) allows a merge only if `mergeOk`
+does, provided the amount stored for a clean (not stale) tour is there and is not more than what is really left of the resource -
+the invariant of `update_resource_consumption` (capacity minus the demand of all tours) and of `prevent_resource_consumption`
+(zero). -/
+theorem clause_sound (cap : Nat → Int) (all : List Iv) (stale : Bool) (avail : Option Int) (a b : Iv)
+    (hb : 0 ≤ b.deliv) (hall : ∀ r, drawn r all ≤ cap r)
+    (hst : ∀ r, a.res = some r → stale = false → ∃ v, avail = some v ∧ v ≤ cap r - drawn r all)
+    (hc : clause stale avail a b = true) : mergeOk cap all a b = true := by
+  unfold clause at hc
+  unfold mergeOk
+  cases hres : a.res with
+  | none => rfl
+  | some r =>
+    simp only [hres] at hc
+    cases stale with
+    | true =>
+      simp at hc
+      have := hall r
+      simp; omega
+    | false =>
+      obtain ⟨v, hv, hle⟩ := hst r hres rfl
+      simp [hv] at hc
+      simp; omega
+
+/-- the clause and the rule together: the code's decision keeps every shared resource within its capacity -/
+theorem clause_keeps_within (cap : Nat → Int) (l rest : List Iv) (stale : Bool) (avail : Option Int) (a b : Iv)
+    (h : Within cap (l ++ a :: b :: rest)) (hb : 0 ≤ b.deliv)
+    (hst : ∀ r, a.res = some r → stale = false → ∃ v, avail = some v ∧ v ≤ cap r - drawn r (l ++ a :: b :: rest))
+    (hc : clause stale avail a b = true) :
+    Within cap (l ++ mergeIv a b :: rest) :=
+  merge_keeps_within cap l rest a b h hb (clause_sound cap _ stale avail a b hb h hst hc)
+
+/-- not vacuous: a clean tour with one unit left takes one unit; a stale tour takes nothing -/
+example : clause false (some 1) ⟨some 0, 5⟩ ⟨none, 1⟩ = true ∧ clause true (some 1) ⟨some 0, 5⟩ ⟨none, 1⟩ = false := by decide
+
+/-- the state lookup of the old code (`none` whatever was stored) on a clean tour: the clause holds although nothing is left -/
+example : clause false none ⟨some 0, 5⟩ ⟨none, 1⟩ = true := by decide
+
 end VrpProofs.C01Reload
